@@ -261,7 +261,18 @@ class World:
     def remove_all(self, m, via_exit):
         mgr, mid = self.mgrs[m]
         try:
-            if via_exit:
+            if via_exit == "raise":
+                # the with-block is left through an exception of its body:
+                # the clean-up must happen all the same and the body's
+                # exception must come out
+                class _Body(Exception):
+                    pass
+                try:
+                    with mgr:
+                        raise _Body()
+                except _Body:
+                    pass
+            elif via_exit:
                 with mgr:
                     pass
             else:
@@ -273,7 +284,9 @@ class World:
             res, code = self.classify(exc)
         self.record(dict(op="remove_all_servers", m=m), res, code,
                     what="mgr(%r) %s" % (mid, "context exit" if via_exit
-                                         else "remove_all_servers()"))
+                                         else "remove_all_servers()") +
+                    (" through an exception of the with body"
+                     if via_exit == "raise" else ""))
 
     def foreign(self, sv, kind, name, url):
         conn = self.conns[sv]
@@ -365,7 +378,7 @@ def run_history(rng, nops):
         elif x < 0.86:
             w.remove_server(m, sv)
         elif x < 0.90:
-            w.remove_all(m, rng.random() < 0.5)
+            w.remove_all(m, rng.choice([False, True, "raise"]))
         elif x < 0.96:
             # client restart: new manager object with the same ID
             w.new_manager(m, mid)
@@ -397,7 +410,7 @@ def directed_histories(rng):
             w.remove_server(2, 1)
         w.new_manager(1, "abc")          # restart of the first client
         w.add_server(1, 1)
-        w.remove_all(1, True)
+        w.remove_all(1, True if other != "ab" else "raise")
         out.append(w)
     w = World(rng, 1)
     w.new_manager(1, "abc")
